@@ -277,4 +277,8 @@ def allSkeletons : List (List String) :=
 def project (i : Nat) (tr : List (Nat × Op × Res)) : List Res :=
   (tr.filter (fun e => e.1 == i)).map (fun e => e.2.2)
 
+/-- What the callers `0 … n-1` report for a trace: their own answers, rendered, in program order. -/
+def observeThreads (render : Res → String) (n : Nat) (tr : List (Nat × Op × Res)) : List (List String) :=
+  (List.range n).map (fun i => (project i tr).map render)
+
 end Tunnox.C13
